@@ -261,9 +261,8 @@ func (l *rlexer) lex() bool {
 						prefix, local = name, l.ncname()
 					}
 				case followsName:
-					// blanks inside a QName: the implementation tolerates them,
-					// the property does not say: unasserted
-					l.unasserted = true
+					// blanks inside a QName: a QName is one token (XPath 1.0 section 3.7,
+					// XML Names), ExprWhitespace may only stand between tokens
 					return false
 				default:
 					return false // "a:" not followed by a local part
@@ -643,7 +642,8 @@ func lexPathArg(s string, knownPfx func(string) bool) ([]ptok, Verdict) {
 				k++
 			}
 			if k < len(s) && s[k] == ':' && (k > i || (k+1 < len(s) && isWS(s[k+1]))) {
-				return nil, Unasserted
+				// node-identifier = [prefix ":"] identifier has no room for blanks
+				return nil, Reject
 			}
 			if i < len(s) && s[i] == ':' {
 				if i+1 < len(s) && isIdStart(s[i+1]) {
